@@ -13,7 +13,11 @@
 (* maintained from the logged operations) and, on every step, that limit and   *)
 (* size only grow and no record moves or changes (Monotone).  Where the        *)
 (* records are placed is NOT prescribed here: any placement that respects the  *)
-(* layout is accepted.  "create" starts a new file.                            *)
+(* layout is accepted.  "create" starts a new file; "alien" = a writer with     *)
+(* different metadata opened the file and used a counter: `want` is unchanged,  *)
+(* so Exact demands that nothing of it reached the file, Monotone that the      *)
+(* header and metadata length stayed, and the harness compares the metadata     *)
+(* text itself.                                                                 *)
 EXTENDS FileFormatOps, Json
 Trace == ndJsonDeserialize("c10ops.ndjson")
 VARIABLE l
